@@ -16,7 +16,7 @@ from mc.common import Violation
 
 PROP = "C17"
 LEVEL = "exploration"
-VARIANTS = ["numpy", "view", "readonly", "dask", "float32nan"]
+VARIANTS = ["numpy", "view", "readonly", "dask", "float32nan", "intdir"]
 
 
 # ---------------------------------------------------------------------------------------------
@@ -66,7 +66,8 @@ def make_world(variant, seed=0):
             "lon": (("site",), own("lon", np.array([359.5, 0.5, 2.0]))),
             "lat": (("site",), own("lat", np.array([-1.0, 0.0, 1.0]))),
         },
-        coords={"time": times, "site": np.array([1, 2, 3]), "freq": own("freq", f), "dir": own("dir", d)},
+        coords={"time": times, "site": np.array([1, 2, 3]), "freq": own("freq", f),
+                "dir": (np.arange(nd, dtype=np.int64) * 45) if variant == "intdir" else own("dir", d)},   # whole degrees stored as integers
         attrs={"title": "caller dataset", "history": "made by the caller"},
     )
     ds["efth"].attrs = {"units": "m2/Hz/deg", "note": "mine"}
@@ -279,6 +280,22 @@ def build_ops(w0):
         "to_ww3": lambda w, tmp: w["ds"].spec.to_ww3(os.path.join(tmp, "b.nc"), ncformat="NETCDF3_64BIT"),
         "to_funwave": lambda w, tmp: w["ds"].isel(time=0, site=0).spec.to_funwave(os.path.join(tmp, "fw.txt"), clip=False),
     }
+    # writers that cannot complete (target directory missing / back end not available): the call raises, the caller's data must be untouched
+    def failing_writers(w, tmp):
+        missing = os.path.join(tmp, "no", "such", "dir")
+        for call in (lambda: w["ds"].spec.to_netcdf(os.path.join(missing, "a.nc"), ncformat="NETCDF3_64BIT", compress=False, packed=False),
+                     lambda: w["ds"].spec.to_netcdf(os.path.join(tmp, "b.nc"), ncformat="NOSUCHFORMAT"),
+                     lambda: w["ds"].spec.to_netcdf(os.path.join(tmp, "c.nc"), ncformat="NETCDF3_64BIT", compress=True),
+                     lambda: w["ds"].spec.to_swan(os.path.join(missing, "a.swn")),
+                     lambda: w["ds"].spec.to_json(os.path.join(missing, "a.json")),
+                     lambda: w["ds"].spec.to_ww3(os.path.join(missing, "a.nc"), ncformat="NETCDF3_64BIT"),
+                     lambda: w["ds"].isel(site=[0]).spec.to_octopus(os.path.join(missing, "a.oct"))):
+            try:
+                call()
+            except Exception:  # noqa  (raising is the expected outcome; what matters is the snapshot afterwards)
+                pass
+
+    ops.append(("writers that raise", failing_writers))
     for mname in sorted(dir(SpecDataset)):
         if mname.startswith("to_") and mname not in SKIP:
             if mname in W:
